@@ -24,7 +24,7 @@ list="$@"; [ -z "$list" ] && list=$(ls refactorings)
 for id in $list; do
   one $id > $out/$id.result &
   n=$((n+1))
-  if [ $((n % 2)) -eq 0 ]; then wait; fi
+  if [ $((n % ${PAR:-2})) -eq 0 ]; then wait; fi
 done
 wait
 cat $out/*.result
